@@ -27,7 +27,32 @@ Fixpoint words_upto (n : nat) : list (list Z) :=
   | S n' => words_upto n' ++ words_eq n
   end.
 
+(* the implementation "diverges" (RecursionError after unbounded state growth) exactly where the
+   model runs out of fuel; both are rendered as Internal in the case files *)
+Definition fuel_as_internal {A} (r : result A) : result A :=
+  match r with OutOfFuel => Internal OverflowErr | _ => r end.
+Definition compile_i (fuel : nat) (r : re) : result dfa := fuel_as_internal (compile fuel r).
+
 Definition run_words (fuel : nat) (r : re) (n : nat) : list (result bool) :=
-  map (fun w => d <- compile fuel r ;; run d w) (words_upto n).
+  match compile fuel r with
+  | Ok d => map (fun w => run d w) (words_upto n)
+  | _ => map (fun _ => Internal OverflowErr) (words_upto n)
+  end.
 Definition scan_words (fuel : nat) (r : re) (n : nat) : list (result (list (list Z))) :=
-  map (fun w => d <- compile fuel r ;; scan fuel d w) (words_upto n).
+  match compile fuel r with
+  | Ok d => map (fun w => scan fuel d w) (words_upto n)
+  | _ => map (fun _ => Internal OverflowErr) (words_upto n)
+  end.
+
+(* ---- one function per kind of correspondence case (typeclass resolution happens once, here) *)
+Definition case_regex (r : re) : val :=
+  toval (nu r, nullable r, [deriv r 97; deriv r 98; deriv r 99], classes r).
+Definition case_compile (fuel : nat) (r : re) : val := toval (compile_i fuel r).
+Definition case_run (fuel : nat) (r : re) (n : nat) : val := toval (run_words fuel r n).
+Definition case_scan (fuel : nat) (r : re) (n : nat) : val := toval (scan_words fuel r n).
+Definition case_smart (x y : re) : val :=
+  toval (concatenate x y, logical_or x y, logical_and x y).
+Definition case_iset (la lb : list (Z * Z)) (probe : list Z) : val :=
+  let a := mk_iset la in let b := mk_iset lb in
+  toval (a, union a b, inter a b, diff a b, map (contains a) probe, nonempty a).
+Definition case_parse (fuel : nat) (txt : list Z) : val := toval (parse fuel txt).
